@@ -975,6 +975,21 @@ async def op_nop(env, ctx, step):
     return None
 
 
+async def op_guard(env, ctx, step):
+    """run the body; on the way out - also when cancelled, interrupted or closed - hand
+    follow-up work to the scope this activity was started in (a synchronous scope.do())"""
+    try:
+        await run_steps(env, ctx, step['body'])
+    finally:
+        if step.get('scope'):
+            scope, key = env.scopes.get(step['scope'], (None, None))
+        else:
+            scope, key = ctx.parent_scope, ctx.parent_key
+        if scope is not None and env.sess.armed and env.sess.stack:
+            env.sess.stats['cleanup_spawns'] += 1
+            spawn(env, ctx, scope, key, step['child'])
+
+
 async def op_try(env, ctx, step):
     """run the body, catch (only) exceptions raised by program code"""
     try:
@@ -992,7 +1007,7 @@ HANDLERS = {
     'borrow': op_borrow, 'resource': op_resource, 'transfer': op_transfer,
     'scope': op_scope, 'spawn': op_spawn, 'cancel': op_cancel, 'await_task': op_await_task,
     'raise': op_raise, 'ticker': op_ticker, 'collect': op_collect, 'first': op_first,
-    'nop': op_nop, 'try': op_try,
+    'nop': op_nop, 'try': op_try, 'guard': op_guard,
 }
 
 
